@@ -86,7 +86,9 @@ class C11(Check):
                           # ragged rows whose lengths add up to n*n all the same
                           ("1/111", "V0,V1"), ("111/1", "V0,V1"), ("0/000", "V0,V1"), ("000/1", "V0,V1"),
                           ("11/111/1111", "V0,V1,V2"), ("1/1111/1111", "V0,V1,V2"), ("0000/0000/1", "V0,V1,V2"),
-                          ("1111/1/1111", "V0,V1,V0")]:
+                          ("1111/1/1111", "V0,V1,V0"),
+                          # BOTH defects at once: a side array that is too short and a ragged row at an index beyond it
+                          ("111/111/1", "V0,V1"), ("11/11/1", "V0"), ("1111/1111/1111/11", "V0,V1"), ("11/1", "."), ("111/111/11", "V0")]:
                 yield self.run(real, sd + ["obs", "adjmat D %s %s" % (vs, m)] + readback(3))
         # larger random inputs
         for _ in range(400 if quick else 3000):
